@@ -41,6 +41,8 @@ def gen_case(rng, tier):
     prof["carry"] = rng.random() < 0.5
     prof["w_pure"] = max(prof["w_pure"], 1)
     prof["gap"] = rng.random() < 0.5
+    prof["recent_bias"] = rng.choice([0, 0, 0.3, 0.6])
+    prof["pure_loop"] = rng.choice([0, 0, 0.3, 0.5])
     ast = G.AccfgGen(rng, prof).program()
     envs = gen_envs(rng, K_ENVS[tier])
     for e in envs[1:]:
